@@ -1,6 +1,8 @@
 package main
 
 import (
+	"crypto/sha256"
+	"encoding/hex"
 	"bytes"
 	"context"
 	"fmt"
@@ -368,7 +370,36 @@ func solveSliced(workdir, name, query string, timeoutS, seed int) SolveResult {
 	}
 }
 
+// Proof cache (opt-in, LSVC_CACHE=1; used by the must-fail corpus and seeded
+// runs, never for committed evidence): a query that was unsat is unsat. Keyed
+// by the exact query text, so only literally identical obligations hit it.
+func cacheFile(query string) string {
+	if os.Getenv("LSVC_CACHE") == "" {
+		return ""
+	}
+	h := sha256.Sum256([]byte(query))
+	return filepath.Join(verifDir, "work", "cache", hex.EncodeToString(h[:]))
+}
+
 func solveCtx(parent context.Context, workdir, name, query string, timeoutS, seed int, only string) SolveResult {
+	cf := ""
+	if only == "" {
+		cf = cacheFile(query)
+	}
+	if cf != "" {
+		if b, err := os.ReadFile(cf); err == nil {
+			return SolveResult{Status: "unsat", Solver: "cache(" + strings.TrimSpace(string(b)) + ")"}
+		}
+	}
+	r := solveCtx0(parent, workdir, name, query, timeoutS, seed, only)
+	if cf != "" && r.Status == "unsat" {
+		os.MkdirAll(filepath.Dir(cf), 0o755)
+		os.WriteFile(cf, []byte(r.Solver), 0o644)
+	}
+	return r
+}
+
+func solveCtx0(parent context.Context, workdir, name, query string, timeoutS, seed int, only string) SolveResult {
 	specs := solverSpecs()
 	ctx, cancel := context.WithCancel(parent)
 	defer cancel()
